@@ -488,6 +488,10 @@ func (a *A) ruleHavingBinding() {
 				ok = true // selectAlias[call text]
 			case t.Kind == "index" && t.Base.Kind != "param":
 				ok = true // the call text itself (element of the calls slice)
+			case isSubstringOfParam(leaf, fn):
+				ok = true // the call text itself, cut out of the HAVING text
+			case isLookupInStringMapParam(leaf):
+				ok = true // selectAlias[call text], read with the comma-ok form
 			case t.Kind == "call" && t.Name == "fmt.Sprintf":
 				if c, isCall := leaf.(*ssa.Call); isCall {
 					if k, isK := c.Call.Args[0].(*ssa.Const); isK && k.Value != nil && strings.HasPrefix(constant.StringVal(k.Value), "__having_") {
@@ -502,6 +506,29 @@ func (a *A) ruleHavingBinding() {
 	if n == 0 {
 		a.Und(fname(fn)+"#having-binding", fn.Pos(), "no replacement table found in extractHavingAggregates")
 	}
+}
+
+// isSubstringOfParam: v is s[a:b] for a string parameter s of fn.
+func isSubstringOfParam(v ssa.Value, fn *ssa.Function) bool {
+	sl, ok := v.(*ssa.Slice)
+	if !ok || !isStringType(sl.Type()) {
+		return false
+	}
+	p, ok := sl.X.(*ssa.Parameter)
+	return ok && p.Parent() == fn && isStringType(p.Type())
+}
+
+// isLookupInStringMapParam: v is m[k] or the value half of `v, ok := m[k]` for a parameter m of type map[..]string.
+func isLookupInStringMapParam(v ssa.Value) bool {
+	if ex, ok := v.(*ssa.Extract); ok && ex.Index == 0 {
+		v = ex.Tuple
+	}
+	lk, ok := v.(*ssa.Lookup)
+	if !ok {
+		return false
+	}
+	p, ok := lk.X.(*ssa.Parameter)
+	return ok && isMapOfString(p.Type())
 }
 
 func isMapOfString(t types.Type) bool {
